@@ -130,15 +130,17 @@ class SimServer:
 
     # ------------------------------------------------------------------ clients
     def new_client(self, proc: Any) -> Any:
+        """A real GrpcStorageProxy: its own __init__ and the generated StorageServiceStub run
+        unchanged on a SimChannel (grpc.insecure_channel is the seam), so channel options the
+        client configures - notably a retry policy in grpc.service_config - take effect."""
         from optuna.storages import GrpcStorageProxy
         from optuna.storages._grpc import client as cmod
 
-        p = object.__new__(GrpcStorageProxy)
-        p._stub = SimStub(self)
-        p._cache = cmod.GrpcClientCache(p._stub)
-        p._host = "sim"
-        p._port = 0
-        return p
+        if not isinstance(getattr(cmod, "grpc", None), GrpcShim):
+            cmod.grpc = GrpcShim()
+        port = 20000 + id_of(self)
+        _SERVERS[port] = self
+        return GrpcStorageProxy(host="sim", port=port)
 
     def call(self, method: str, request: Any) -> Any:
         sim = self.sim
@@ -175,6 +177,74 @@ class SimServer:
             raise SimRpcError(slot.error[0], slot.error[1])
         reptype, data = slot.reply
         return reptype.FromString(data)
+
+
+_SERVERS: dict[int, "SimServer"] = {}
+_server_ids: dict[int, int] = {}
+
+
+def id_of(server: "SimServer") -> int:
+    k = id(server)
+    if k not in _server_ids:
+        _server_ids[k] = len(_server_ids) + 1
+    return _server_ids[k]
+
+
+class GrpcShim:
+    """Stands in for the `grpc` module inside optuna/storages/_grpc/client.py."""
+
+    def insecure_channel(self, target: str, options: Any = None, compression: Any = None) -> "SimChannel":
+        port = int(str(target).rsplit(":", 1)[1])
+        return SimChannel(_SERVERS[port], options or [])
+
+    def __getattr__(self, name: str) -> Any:
+        return getattr(grpc, name)
+
+
+class SimChannel:
+    """What the generated stub needs from a grpc.Channel, plus gRPC's client-side retry
+    policy (service config): a call that fails with a retryable status code is re-sent up to
+    maxAttempts times - also when the failed attempt had been executed by the server."""
+
+    def __init__(self, server: "SimServer", options: Any) -> None:
+        import json as _json
+
+        self.server = server
+        self.retry: list[tuple[Any, int, set]] = []  # (method or None, maxAttempts, codes)
+        opts = dict((k, v) for k, v in options)
+        if opts.get("grpc.enable_retries", 1) and "grpc.service_config" in opts:
+            try:
+                cfgs = _json.loads(opts["grpc.service_config"]).get("methodConfig", [])
+            except Exception:
+                cfgs = []
+            for mc in cfgs:
+                rp = mc.get("retryPolicy")
+                if not rp:
+                    continue
+                for nm in mc.get("name", [{}]):
+                    self.retry.append((nm.get("method"), int(rp.get("maxAttempts", 1)), set(rp.get("retryableStatusCodes", []))))
+
+    def unary_unary(self, path: str, request_serializer: Any = None, response_deserializer: Any = None, **kw: Any) -> Any:
+        method = path.rsplit("/", 1)[1]
+        server = self.server
+        policy = next(((m, n, codes) for m, n, codes in self.retry if m in (None, method)), None)
+
+        def call(request: Any, timeout: Any = None, metadata: Any = None, **k: Any) -> Any:
+            attempts = 0
+            while True:
+                attempts += 1
+                try:
+                    return server.call(method, request)
+                except SimRpcError as e:
+                    if policy is not None and attempts < policy[1] and e.code().name in policy[2]:
+                        server.sim.count("rpc.client_retry")
+                        continue
+                    raise
+
+        return call
+
+    def close(self) -> None:
+        pass
 
 
 class SimStub:
